@@ -299,7 +299,7 @@ func representable(d srt.Doc) bool {
 			t := ""
 			for _, r := range l {
 				t += r.Text
-				if srt.TrimLine(r.Text) == "" {
+				if r.Text != "" && srt.TrimLine(r.Text) == "" {
 					return false // white-space-only runs are not "text runs" in SubRip (a no-break space is text)
 				}
 			}
@@ -442,6 +442,30 @@ func enumerate(thorough bool, bound int, emit func(sub string, x *explore.C, cs 
 	r3 := profile{ncues: []int{1}, starts: []int64{1000}, ends: []int{0}, nlines: []int{1}, nruns: []int{3},
 		styles: []srt.Style{{}, {I: true}, {B: true, Color: "red"}}, texts: []string{"x", "\u00a0", "&", "<", "a b"}}
 	explore.Explore(-1, func(x *explore.C) { cs = gen(x, r3, true) }, visit("runs3"))
+	// (1b') empty runs (what other formats' readers and hand-written code produce: an empty styled span, a run holding only
+	// an override block): 2..3 runs per line of which some are empty, on the first or second line - a line is its
+	// concatenated text, an empty run contributes nothing and removes nothing
+	explore.Explore(-1, func(x *explore.C) {
+		sts := []srt.Style{{}, {B: true}, {I: true, Color: "red"}}
+		var cue srt.Cue
+		cue.Start, cue.End = 1000, 2000
+		nl := explore.Pick(x, "nlines", 1, 2)
+		for l := 0; l < nl; l++ {
+			var line srt.Line
+			nr := explore.Pick(x, "nruns", 2, 3)
+			some := false
+			for r := 0; r < nr; r++ {
+				tx := explore.Pick(x, "text", "", "x", "a b")
+				some = some || tx != ""
+				line = append(line, srt.Run{Text: tx, Style: explore.Pick(x, "style", sts...)})
+			}
+			if !some {
+				line[0].Text = "x"
+			}
+			cue.Lines = append(cue.Lines, line)
+		}
+		cs = Case{Doc: srt.Doc{cue}, Render: srt.DefaultRender(1)}
+	}, visit("emptyruns"))
 	// (1c) index handling: two cues, every index form on each (numeric, absent, garbage, "0"), digit-only text
 	// lines in first/last position ("7", "-5", "007" are all accepted by Atoi), 1..3 blank lines, every EOL
 	explore.Explore(-1, func(x *explore.C) {
